@@ -138,7 +138,37 @@ func genCase(r *gen.Rand, i int) any {
 		add(Step{Op: "unlock", L: 1})
 		add(Step{Op: "unlock", L: 0})
 	case "fault": // single script round trips fail
-		switch r.Intn(3) {
+		switch r.Intn(5) {
+		case 3: // two steps: a key is lost to somebody else (its monitor leaves with ErrNotLocked, the holder stays live),
+			// then the extension of another key fails while a competitor keeps trying: the context must be done
+			// before that second key is released
+			if c.M < 2 {
+				c.M = 2
+				K = 3
+			}
+			k1 := r.Intn(K)
+			k2 := (k1 + c.M - 1) % K // the keys k1 .. k1+m-2 go first, k2 is the next one
+			add(Step{Op: "try", L: 0})
+			add(Step{Op: "sleep", Ms: 20})
+			for j := 0; j < c.M-1; j++ { // m-1 keys are lost: one more exit costs the majority
+				add(Step{Op: "envdel", Key: (k1 + j) % K})
+			}
+			for j := 0; j < c.M-1; j++ {
+				add(Step{Op: "waitexit", L: 0, Key: (k1 + j) % K})
+			}
+			add(Step{Op: "fault", L: 0, Key: k2, Fault: "ext-err"})
+			add(Step{Op: "spin", L: 1, Ms: c.Interval + 150})
+			add(Step{Op: "settle", L: 0})
+		case 4: // the same with a key that was held by somebody else when the lock was acquired
+			c.NoModel = true
+			c.M, K = 2, 3
+			add(Step{Op: "envset", Key: 2})
+			add(Step{Op: "try", L: 0})
+			add(Step{Op: "waitexit", L: 0, Key: 2})
+			add(Step{Op: "fault", L: 0, Key: r.Intn(2), Fault: "ext-err"})
+			add(Step{Op: "spin", L: 1, Ms: c.Interval + 150})
+			add(Step{Op: "settle", L: 0})
+			add(Step{Op: "envdel", Key: 2})
 		case 0: // an acquisition answers with an error / too late: the next key is tried, the leftover is deleted
 			ft := gen.Pick(r, []string{"acq-err", "acq-slow"})
 			if ft == "acq-slow" {
@@ -208,6 +238,8 @@ type attempt struct {
 	finished bool // its return has been recorded
 	ctx      context.Context
 	lastLoss time.Time
+	prevOwned  int       // keys it owned after the previous recorded step (-1: not looked at yet)
+	belowSince time.Time // since when it is below its majority because of somebody else
 	unlockd  bool     // its cancel function has been called
 	mon      []string // per key, what the attempt's monitor is doing as far as the recorded steps tell: "" | run | del | exit
 	last     []*rstep // per key: the last acquire / extend step
@@ -411,31 +443,59 @@ func (w *world) checkHolders(self *attempt, selfDel bool) {
 	w.syncOwners(self, selfDel)
 	live := 0
 	for _, a := range w.atts {
-		if !a.held || a.ctx == nil || a.ctx.Err() != nil {
+		if !a.held || a.ctx == nil {
+			continue
+		}
+		n := w.owned(a)
+		prev := a.prevOwned
+		a.prevOwned = n
+		if a.ctx.Err() != nil {
 			continue
 		}
 		live++
-		n := w.owned(a)
 		if n >= w.c.M {
+			a.belowSince = time.Time{}
 			continue
 		}
-		if !a.lastLoss.IsZero() && time.Since(a.lastLoss) < slack {
-			continue // lost keys to somebody else a moment ago: it has the slack to notice
+		// a live holder below its majority
+		if prev >= w.c.M { // this very step took it there
+			if a == self && selfDel && w.running(a) < w.c.M {
+				// its own delete script, and fewer than a majority of its monitors still believe they hold a key
+				if a.acqs < w.K {
+					w.fail("release-during-background-acquisition", fmt.Sprintf("attempt %d (locker %d) released a key while its context is live and it owns only %d/%d keys; the acquisition of its last keys was still on its way (%d/%d attempted)", a.id, a.locker, n, w.K, a.acqs, w.K))
+				} else {
+					w.fail("release-before-cancel", fmt.Sprintf("attempt %d (locker %d) released a key while its context is live: it now owns %d/%d keys, majority %d", a.id, a.locker, n, w.K, w.c.M))
+				}
+				continue
+			}
+			a.belowSince = time.Now() // lost to somebody else: it has the slack to notice
+			continue
 		}
-		switch {
-		case a == self && selfDel && a.acqs < w.K:
-			w.fail("release-during-background-acquisition", fmt.Sprintf("attempt %d (locker %d) released a key while its context is live and it owns only %d/%d keys; the acquisition of its last keys was still on its way (%d/%d attempted)", a.id, a.locker, n, w.K, a.acqs, w.K))
-		case a == self && selfDel:
-			w.fail("release-before-cancel", fmt.Sprintf("attempt %d (locker %d) released a key while its context is live: it now owns %d/%d keys, majority %d", a.id, a.locker, n, w.K, w.c.M))
-		case a.lastLoss.IsZero():
-			w.fail("live-without-majority", fmt.Sprintf("attempt %d (locker %d) has a live context but owns %d/%d keys (majority %d) and never lost a key to anybody else", a.id, a.locker, n, w.K, w.c.M))
-		default:
-			w.fail("loss-not-cancelled", fmt.Sprintf("attempt %d (locker %d) lost its majority %v ago (owns %d/%d) and its context is still live", a.id, a.locker, time.Since(a.lastLoss).Round(time.Millisecond), n, w.K))
+		if a.belowSince.IsZero() { // it never had the majority while we looked
+			if a.lastLoss.IsZero() {
+				w.fail("live-without-majority", fmt.Sprintf("attempt %d (locker %d) has a live context but owns %d/%d keys (majority %d) and never lost a key to anybody else", a.id, a.locker, n, w.K, w.c.M))
+				continue
+			}
+			a.belowSince = a.lastLoss
+		}
+		if time.Since(a.belowSince) >= slack {
+			w.fail("loss-not-cancelled", fmt.Sprintf("attempt %d (locker %d) lost its majority %v ago (owns %d/%d) and its context is still live", a.id, a.locker, time.Since(a.belowSince).Round(time.Millisecond), n, w.K))
 		}
 	}
 	if live >= 2 {
 		w.twoLive = true
 	}
+}
+
+// running counts the monitors of the attempt that still run as far as the recorded steps tell
+func (w *world) running(a *attempt) int {
+	n := 0
+	for _, m := range a.mon {
+		if m == "run" {
+			n++
+		}
+	}
+	return n
 }
 
 func (w *world) tickIfAdvanced() {
@@ -506,7 +566,7 @@ func (w *world) onExec(e fakeredis.Entry) {
 			return
 		}
 		w.finishPrevious(l) // a new round of try on this locker: the previous one (inside WithContext) is over
-		a = &attempt{id: len(w.atts), locker: l, val: val, force: strings.HasPrefix(kind, "fcq"), mon: make([]string, w.K), last: make([]*rstep, w.K)}
+		a = &attempt{id: len(w.atts), locker: l, val: val, force: strings.HasPrefix(kind, "fcq"), mon: make([]string, w.K), last: make([]*rstep, w.K), prevOwned: -1}
 		w.atts = append(w.atts, a)
 		w.byVal[val] = a
 		w.emit(obs.App("LStart", obs.Bool(a.force)), "RNone", obs.None)
@@ -872,6 +932,33 @@ func run(ci any) (res obs.Result) {
 			}
 		case "envdel":
 			w.env.Do(bg, w.env.B().Del().Key(keyName(st.Key)).Build())
+		case "envset": // somebody else holds that key
+			w.env.Do(bg, w.env.B().Set().Key(keyName(st.Key)).Value("somebody-else").Px(time.Minute).Build())
+		case "waitexit": // until the holder's monitor of that key has left (bounded)
+			if cl := w.holderOn(st.L); cl != nil && st.Key < w.K {
+				deadline := time.Now().Add(slack)
+				for time.Now().Before(deadline) {
+					w.mu.Lock()
+					gone := cl.att.mon[st.Key] == "exit"
+					w.mu.Unlock()
+					if gone {
+						break
+					}
+					time.Sleep(time.Millisecond)
+				}
+			}
+		case "spin": // a competitor keeps trying for a while; it keeps the lock if it gets it
+			until := time.Now().Add(time.Duration(st.Ms) * time.Millisecond)
+			for time.Now().Before(until) && w.holderOn(st.L) == nil {
+				cl := w.start(st.L, "try")
+				waitDone(cl, 2*slack)
+				if cl.att == nil {
+					w.drop(cl)
+				} else {
+					w.sig = append(w.sig, "competitor-got-it")
+				}
+				time.Sleep(4 * time.Millisecond)
+			}
 		case "expire": // the clock jumps past every deadline handed out so far
 			lag := time.Now().UnixMilli() - w.s.Now()
 			if lag < 0 {
